@@ -1,9 +1,6 @@
 (* SliderPathFacts: T18b.  The SliderPath accessors as a state machine next to
-   a shared CurveBuffers: for every history, what the caller reads is what a
-   cache-free, buffer-free specification computes from the *current* fields.
-   The only excluded situation is defect D7 (an empty control-point list
-   computed through buffers that still hold a borrowed path), stated as the
-   side condition [op_safe]. *)
+   a shared CurveBuffers: for EVERY history, what the caller reads is what a
+   cache-free, buffer-free specification computes from the *current* fields. *)
 From RM Require Import Model.ControlPoints Model.Curve Model.SliderPathCache
   Proofs.BezierRefine Proofs.CurveRefine.
 Open Scope nat_scope.
@@ -14,56 +11,32 @@ Section WithLibm.
 
   Notation L1 := (curve_L1 lm fuel).
 
-  (* ---------- constructors through possibly dirty buffers ---------- *)
-
-  Definition usable (pts : list PathControlPoint) (bufs : CurveBuffers) : Prop :=
-    pts <> [] \/ cb_path bufs = [].
+  (* ---------- constructors through arbitrary (well-formed) buffers ---------- *)
 
   Lemma owned_ok mode pts e bufs :
-    cb_wf bufs -> usable pts bufs ->
+    cb_wf bufs ->
     match L1 mode pts e with
     | Done c => exists bufs', curve_new_L0 lm fuel mode pts e bufs = Done (c, bufs') /\ cb_wf bufs'
-                              /\ cb_path bufs' = []
     | Panic w => curve_new_L0 lm fuel mode pts e bufs = Panic w
     | OutOfFuel => curve_new_L0 lm fuel mode pts e bufs = OutOfFuel
     end.
   Proof.
-    intros Hwf [Hne|Hc].
-    - pose proof (curve_new_refines lm fuel mode pts e bufs Hne Hwf) as H.
-      destruct (L1 mode pts e); [|exact H|exact H].
-      destruct H as (b' & H1 & H2 & H3 & _). exists b'. repeat split; assumption.
-    - destruct pts as [|p0 pt].
-      + unfold curve_new_L0, curve_L1. rewrite compute_nil.
-        unfold calculate_length_L0, calculate_path_L1. rewrite Hc. cbn [obind].
-        rewrite !calculate_length_nil. cbn [obind cb_path cb_lengths cb_vertices cb_bezier].
-        eexists. split; [reflexivity|]. split; [exact Hwf|reflexivity].
-      + assert (Hne : p0 :: pt <> []) by discriminate.
-        pose proof (curve_new_refines lm fuel mode (p0 :: pt) e bufs Hne Hwf) as H.
-        destruct (L1 mode (p0 :: pt) e); [|exact H|exact H].
-        destruct H as (b' & H1 & H2 & H3 & _). exists b'. repeat split; assumption.
+    intros Hwf. pose proof (curve_new_refines lm fuel mode pts e bufs Hwf) as H.
+    destruct (L1 mode pts e); [|exact H|exact H].
+    destruct H as (b' & H1 & H2 & _). exists b'. split; assumption.
   Qed.
 
   Lemma borrowed_ok mode pts e bufs :
-    cb_wf bufs -> usable pts bufs ->
+    cb_wf bufs ->
     match L1 mode pts e with
     | Done c => exists bufs', borrowed_new_L0 lm fuel mode pts e bufs = Done (c, bufs') /\ cb_wf bufs'
     | Panic w => borrowed_new_L0 lm fuel mode pts e bufs = Panic w
     | OutOfFuel => borrowed_new_L0 lm fuel mode pts e bufs = OutOfFuel
     end.
   Proof.
-    intros Hwf [Hne|Hc].
-    - pose proof (borrowed_new_refines lm fuel mode pts e bufs Hne Hwf) as H.
-      destruct (L1 mode pts e); [|exact H|exact H].
-      destruct H as (b' & H1 & H2 & _). exists b'. split; assumption.
-    - destruct pts as [|p0 pt].
-      + unfold borrowed_new_L0, curve_L1. rewrite compute_nil.
-        unfold calculate_length_L0, calculate_path_L1. rewrite Hc. cbn [obind].
-        rewrite !calculate_length_nil. cbn [obind cb_path cb_lengths cb_vertices cb_bezier].
-        eexists. split; [reflexivity|exact Hwf].
-      + assert (Hne : p0 :: pt <> []) by discriminate.
-        pose proof (borrowed_new_refines lm fuel mode (p0 :: pt) e bufs Hne Hwf) as H.
-        destruct (L1 mode (p0 :: pt) e); [|exact H|exact H].
-        destruct H as (b' & H1 & H2 & _). exists b'. split; assumption.
+    intros Hwf. pose proof (borrowed_new_refines lm fuel mode pts e bufs Hwf) as H.
+    destruct (L1 mode pts e); [|exact H|exact H].
+    destruct H as (b' & H1 & H2 & _). exists b'. split; assumption.
   Qed.
 
   (* ---------- the specification: no cache, no buffers ---------- *)
@@ -100,20 +73,8 @@ Section WithLibm.
   Definition same_fields (a b : SliderPath) : Prop :=
     sp_mode a = sp_mode b /\ sp_cps a = sp_cps b /\ sp_expected a = sp_expected b.
 
-  (* D7 exclusion: an operation that computes through the shared buffers
-     with an empty list needs a clean path buffer *)
-  Definition op_safe (sp : SliderPath) (bufs : CurveBuffers) (o : sp_op) : Prop :=
-    match o with
-    | OpCurveWithBufs | OpBorrowed => sp_curve sp <> None \/ usable (sp_cps sp) bufs
-    | OpOwnedOther _ pts _ | OpBorrowedOther _ pts _ => usable pts bufs
-    | _ => True
-    end.
-
-  Lemma usable_default pts : usable pts bufs_default.
-  Proof. right. reflexivity. Qed.
-
   Lemma sp_step_spec sp bufs o :
-    cache_ok sp -> cb_wf bufs -> op_safe sp bufs o ->
+    cache_ok sp -> cb_wf bufs ->
     match spec_step (sp_clear sp) o with
     | Done (f', res) =>
         exists sp' bufs', sp_step lm fuel sp bufs o = Done (sp', bufs', res)
@@ -122,13 +83,13 @@ Section WithLibm.
     | OutOfFuel => sp_step lm fuel sp bufs o = OutOfFuel
     end.
   Proof.
-    intros Hc Hwf Hs. destruct sp as [mode cps e cache]. unfold cache_ok in Hc. cbn [sp_curve sp_mode sp_cps sp_expected] in Hc.
+    intros Hc Hwf. destruct sp as [mode cps e cache]. unfold cache_ok in Hc. cbn [sp_curve sp_mode sp_cps sp_expected] in Hc.
     unfold sp_clear. cbn [sp_mode sp_cps sp_expected].
-    destruct o; cbn [spec_step sp_step sp_mode sp_cps sp_expected sp_curve op_safe] in *.
+    destruct o; cbn [spec_step sp_step sp_mode sp_cps sp_expected sp_curve] in *.
     - (* curve() *)
       destruct cache as [c|].
       + rewrite Hc. cbn [obind]. do 2 eexists. split; [reflexivity|]. repeat split; assumption.
-      + pose proof (owned_ok mode cps e bufs_default cb_wf_default (usable_default cps)) as H.
+      + pose proof (owned_ok mode cps e bufs_default cb_wf_default) as H.
         destruct (L1 mode cps e) as [c| |] eqn:E; cbn [obind].
         * destruct H as (b' & -> & _). cbn [obind]. do 2 eexists. split; [reflexivity|].
           repeat split; try assumption; try exact I.
@@ -137,18 +98,16 @@ Section WithLibm.
     - (* curve_with_bufs *)
       destruct cache as [c|].
       + rewrite Hc. cbn [obind]. do 2 eexists. split; [reflexivity|]. repeat split; assumption.
-      + destruct Hs as [Hs|Hs]; [congruence|].
-        pose proof (owned_ok mode cps e bufs Hwf Hs) as H.
+      + pose proof (owned_ok mode cps e bufs Hwf) as H.
         destruct (L1 mode cps e) as [c| |] eqn:E; cbn [obind].
-        * destruct H as (b' & -> & Hwf' & _). cbn [obind]. do 2 eexists. split; [reflexivity|].
+        * destruct H as (b' & -> & Hwf'). cbn [obind]. do 2 eexists. split; [reflexivity|].
           repeat split; try assumption; try exact I.
         * rewrite H. reflexivity.
         * rewrite H. reflexivity.
     - (* borrowed_curve *)
       destruct cache as [c|].
       + rewrite Hc. cbn [obind]. do 2 eexists. split; [reflexivity|]. repeat split; assumption.
-      + destruct Hs as [Hs|Hs]; [congruence|].
-        pose proof (borrowed_ok mode cps e bufs Hwf Hs) as H.
+      + pose proof (borrowed_ok mode cps e bufs Hwf) as H.
         destruct (L1 mode cps e) as [c| |] eqn:E; cbn [obind].
         * destruct H as (b' & -> & Hwf'). cbn [obind]. do 2 eexists. split; [reflexivity|].
           repeat split; try assumption; try exact I.
@@ -160,13 +119,13 @@ Section WithLibm.
     - do 2 eexists. split; [reflexivity|]. repeat split; try assumption; try exact I.
     - do 2 eexists. split; [reflexivity|]. repeat split; try assumption; try exact I.
     - (* Curve::new elsewhere *)
-      pose proof (owned_ok mode0 pts e0 bufs Hwf Hs) as H.
+      pose proof (owned_ok mode0 pts e0 bufs Hwf) as H.
       destruct (L1 mode0 pts e0) as [c| |]; cbn [obind].
-      + destruct H as (b' & -> & Hwf' & _). cbn [obind]. do 2 eexists. split; [reflexivity|].
+      + destruct H as (b' & -> & Hwf'). cbn [obind]. do 2 eexists. split; [reflexivity|].
         repeat split; assumption.
       + rewrite H. reflexivity.
       + rewrite H. reflexivity.
-    - pose proof (borrowed_ok mode0 pts e0 bufs Hwf Hs) as H.
+    - pose proof (borrowed_ok mode0 pts e0 bufs Hwf) as H.
       destruct (L1 mode0 pts e0) as [c| |]; cbn [obind].
       + destruct H as (b' & -> & Hwf'). cbn [obind]. do 2 eexists. split; [reflexivity|].
         repeat split; assumption.
@@ -174,122 +133,35 @@ Section WithLibm.
       + rewrite H. reflexivity.
   Qed.
 
-  (* the side condition along a run *)
-  Fixpoint hist_safe (sp : SliderPath) (bufs : CurveBuffers) (ops : list sp_op) : Prop :=
-    match ops with
-    | [] => True
-    | o :: r =>
-        op_safe sp bufs o /\
-        match sp_step lm fuel sp bufs o with
-        | Done (sp', bufs', _) => hist_safe sp' bufs' r
-        | _ => True
-        end
-    end.
-
   Definition results {A B C} (o : outcome (A * B * C)) : outcome C :=
     match o with Done (_, _, c) => Done c | Panic w => Panic w | OutOfFuel => OutOfFuel end.
 
-  (* T18b *)
+  (* T18b: every history *)
   Theorem sp_run_spec ops : forall sp bufs,
-    cache_ok sp -> cb_wf bufs -> hist_safe sp bufs ops ->
+    cache_ok sp -> cb_wf bufs ->
     results (sp_run lm fuel sp bufs ops) = spec_run (sp_clear sp) ops /\
     match sp_run lm fuel sp bufs ops with
     | Done (sp', bufs', _) => cache_ok sp' /\ cb_wf bufs'
     | _ => True
     end.
   Proof.
-    induction ops as [|o r IH]; intros sp bufs Hc Hwf Hs.
+    induction ops as [|o r IH]; intros sp bufs Hc Hwf.
     - cbn. repeat split; assumption.
-    - destruct Hs as [Hso Hsr]. cbn [sp_run spec_run].
-      pose proof (sp_step_spec sp bufs o Hc Hwf Hso) as H.
+    - cbn [sp_run spec_run].
+      pose proof (sp_step_spec sp bufs o Hc Hwf) as H.
       destruct (spec_step (sp_clear sp) o) as [[f' res]| |]; cbn [obind].
       + destruct H as (sp' & bufs' & E & Hc' & Hwf' & Hf). rewrite E in *. cbn [obind].
-        specialize (IH sp' bufs' Hc' Hwf' Hsr). destruct IH as [IH1 IH2]. rewrite <- Hf.
+        specialize (IH sp' bufs' Hc' Hwf'). destruct IH as [IH1 IH2]. rewrite <- Hf.
         destruct (sp_run lm fuel sp' bufs' r) as [[[sp2 bufs2] rs]| |]; cbn [results] in IH1;
           rewrite <- IH1; cbn [obind results]; split; try reflexivity; try exact IH2; exact I.
       + rewrite H. cbn. split; [reflexivity|exact I].
       + rewrite H. cbn. split; [reflexivity|exact I].
   Qed.
 
-  (* ---------- sufficient conditions for the side condition ---------- *)
-
-  Definition op_nonempty (o : sp_op) : Prop :=
-    match o with
-    | OpSetPoints pts | OpOwnedOther _ pts _ | OpBorrowedOther _ pts _ => pts <> []
-    | _ => True
-    end.
-
-  Lemma sp_step_cps sp bufs o sp' bufs' res :
-    sp_step lm fuel sp bufs o = Done (sp', bufs', res) ->
-    sp_cps sp' = match o with OpSetPoints pts => pts | _ => sp_cps sp end.
-  Proof.
-    destruct sp as [mode cps e cache].
-    destruct o; cbn [sp_step sp_curve sp_mode sp_cps sp_expected sp_clear]; intros H;
-      repeat match type of H with
-             | context [match ?c with Some _ => _ | None => _ end] => destruct c
-             | context [obind ?x _] => destruct x as [[? ?]| |]; cbn [obind] in H
-             end; try discriminate; inversion H; reflexivity.
-  Qed.
-
-  (* (a) no empty control-point list anywhere in the history *)
-  Lemma hist_safe_nonempty ops : forall sp bufs,
-    sp_cps sp <> [] -> Forall op_nonempty ops -> hist_safe sp bufs ops.
-  Proof.
-    induction ops as [|o r IH]; intros sp bufs Hne Hall; [exact I|].
-    pose proof (Forall_inv Hall) as Ho. pose proof (Forall_inv_tail Hall) as Hr.
-    cbn [hist_safe]. split.
-    - destruct o; cbn [op_safe op_nonempty] in *; try exact I; try (right; left; assumption); left; assumption.
-    - destruct (sp_step lm fuel sp bufs o) as [[[sp' bufs'] res]| |] eqn:E; try exact I.
-      apply IH; [|exact Hr]. rewrite (sp_step_cps _ _ _ _ _ _ E).
-      destruct o; cbn [op_nonempty] in Ho; assumption.
-  Qed.
-
-  Corollary sp_run_spec_nonempty ops sp bufs :
-    cache_ok sp -> cb_wf bufs -> sp_cps sp <> [] -> Forall op_nonempty ops ->
-    results (sp_run lm fuel sp bufs ops) = spec_run (sp_clear sp) ops.
-  Proof.
-    intros Hc Hwf Hne Hall.
-    exact (proj1 (sp_run_spec ops sp bufs Hc Hwf (hist_safe_nonempty ops sp bufs Hne Hall))).
-  Qed.
-
-  (* (b) empty lists allowed, but no borrowed computation shares the buffers:
-     every owned computation leaves the path buffer empty *)
-  Definition op_no_borrow (o : sp_op) : Prop :=
-    match o with OpBorrowed | OpBorrowedOther _ _ _ => False | _ => True end.
-
-  Lemma sp_step_clean sp bufs o sp' bufs' res :
-    op_no_borrow o -> cb_path bufs = [] ->
-    sp_step lm fuel sp bufs o = Done (sp', bufs', res) -> cb_path bufs' = [].
-  Proof.
-    intros Hnb Hc. destruct sp as [mode cps e cache].
-    destruct o; cbn [op_no_borrow] in Hnb; try contradiction;
-      cbn [sp_step sp_curve sp_mode sp_cps sp_expected sp_clear]; unfold curve_new_L0; intros H;
-      repeat match type of H with
-             | context [match ?c with Some _ => _ | None => _ end] => destruct c
-             | context [obind (obind ?x _) _] => destruct x; cbn [obind] in H
-             | context [obind ?x _] => destruct x as [[? ?]| |]; cbn [obind] in H
-             end; try discriminate; inversion H; subst; try assumption; reflexivity.
-  Qed.
-
-  Lemma hist_safe_no_borrow ops : forall sp bufs,
-    cb_path bufs = [] -> Forall op_no_borrow ops -> hist_safe sp bufs ops.
-  Proof.
-    induction ops as [|o r IH]; intros sp bufs Hc Hall; [exact I|].
-    pose proof (Forall_inv Hall) as Ho. pose proof (Forall_inv_tail Hall) as Hr.
-    cbn [hist_safe]. split.
-    - destruct o; cbn [op_safe op_no_borrow] in *; try exact I; try contradiction;
-        try (right; right; assumption); right; assumption.
-    - destruct (sp_step lm fuel sp bufs o) as [[[sp' bufs'] res]| |] eqn:E; try exact I.
-      apply IH; [|exact Hr]. exact (sp_step_clean _ _ _ _ _ _ Ho Hc E).
-  Qed.
-
-  Corollary sp_run_spec_no_borrow ops sp bufs :
-    cache_ok sp -> cb_wf bufs -> cb_path bufs = [] -> Forall op_no_borrow ops ->
-    results (sp_run lm fuel sp bufs ops) = spec_run (sp_clear sp) ops.
-  Proof.
-    intros Hc Hwf Hcl Hall.
-    exact (proj1 (sp_run_spec ops sp bufs Hc Hwf (hist_safe_no_borrow ops sp bufs Hcl Hall))).
-  Qed.
+  (* from a fresh SliderPath and fresh buffers *)
+  Corollary sp_run_spec_fresh ops mode cps e :
+    results (sp_run lm fuel (sp_new mode cps e) bufs_default ops) = spec_run (sp_new mode cps e) ops.
+  Proof. exact (proj1 (sp_run_spec ops (sp_new mode cps e) bufs_default I cb_wf_default)). Qed.
 
   (* invalidation: every mutable accessor empties the cache, whatever it held *)
   Definition is_mutation (o : sp_op) : bool :=
